@@ -115,6 +115,22 @@ def gen_docs(prop, seed, n, profile="F", replay=None, max_depth=3, features=None
                                                        {"type": "object", "properties": {"kind": {"type": "string", "enum": ["b"]}},
                                                         "required": ["kind"]}]}}}
             out.append(("cd%03d" % i, doc, ["defaults", "container_default", "object"]))
+    # optional members whose declared default is the type's own zero value ("" / 0 / false / [] / {} / null)
+    if defaults:
+        zero = [("s", {"type": "string"}, ""), ("i", {"type": "integer"}, 0), ("u", {"type": "integer", "format": "uint8"}, 0),
+                ("b", {"type": "boolean"}, False), ("n", {"type": "number"}, 0.0), ("a", {"type": "array", "items": {"type": "string"}}, []),
+                ("m", {"type": "object", "additionalProperties": {"type": "integer"}}, {}),
+                ("o", {"type": ["string", "null"]}, None), ("e", {"type": "string", "enum": ["", "y"]}, ""),
+                ("c", {"type": "string", "maxLength": 4}, "")]
+        for i in range(6):
+            r = util.rng(seed, prop, "zdef", i)
+            props = {"id": {"type": "integer"}}
+            for nm, sch, z in r.sample(zero, r.randrange(2, 6)):
+                props[nm] = dict(sch, default=z)
+            doc = {"definitions": {"Zeroed": {"type": "object", "properties": props, "required": ["id"]}}}
+            if i % 2:
+                doc["definitions"]["Zeroed"]["additionalProperties"] = False
+            out.append(("zd%03d" % i, doc, ["defaults", "zero_default", "object"]))
     # pinned corpus documents are always included
     cdir = os.path.join(util.VERIF, "corpus", prop)
     if os.path.isdir(cdir):
